@@ -441,6 +441,8 @@ def replay_registered(mod: Any, known: List[dict]) -> tuple:
                     f"NOTE: listed finding {k['id']} no longer reproduces from {k['replay']}"
                 )
         elif k.get("status") == "fixed" and outcome is not None:
+            if match_known(known, mod.PROPERTY, body["part"], outcome) is not None:
+                continue  # the case now stops at another, listed finding: not this regression
             failures.append((body["part"], body["case"], outcome.to_json()))
     return lines, failures
 
